@@ -258,7 +258,16 @@ def run_case(case):
                 # a flux map finer than the configured nx, ny (the grid is the map's own)
                 user_flux = rng.normal(size=(2 * cfg.domain.ny, 2 * cfg.domain.nx))
         nsteps = cfg.met.n_timesteps
-        for tw in cfg.towers:
+        for tw0 in cfg.towers:
+            tw, copied = tw0, False
+            if rng.random() < 0.15:
+                # the tower handed to the run is the caller's own object: a copy of a configured tower with the same name and other numbers
+                # (a what-if height, a mast moved a few metres) - the run must use the tower it was given
+                import dataclasses as _dc2
+
+                tw = _dc2.replace(tw0, z_m=float(tw0.z_m * rng.uniform(0.85, 1.5)), x=float(tw0.x + rng.uniform(-30, 30)), y=float(tw0.y + rng.uniform(-30, 30)))
+                copied = True
+                counters["towers_given_as_modified_copies"] = counters.get("towers_given_as_modified_copies", 0) + 1
             for i in range(nsteps):
                 trace.clear()
                 with np.errstate(all="ignore"):
@@ -299,7 +308,7 @@ def run_case(case):
                 x_own = 6_371_000.0 * math.radians(rt["lon"] - rlon) * math.cos(math.radians(rlat))
                 y_own = 6_371_000.0 * math.radians(rt["lat"] - rlat)
                 counters["tower_xy_checked"] = counters.get("tower_xy_checked", 0) + 1
-                if tw.name != moved and not (abs(tw.x - x_own) <= 1e-6 and abs(tw.y - y_own) <= 1e-6):
+                if tw.name != moved and not copied and not (abs(tw.x - x_own) <= 1e-6 and abs(tw.y - y_own) <= 1e-6):
                     viol.append(dict(what="tower_local_coordinates", got=(tw.x, tw.y), expected=(x_own, y_own), reference=(rlat, rlon), **ctx))
                 names = [t[0] for t in trace]
                 if names.count("steady_state_transport_solver") != 1 or "vertical_profiles" not in names or "compute_wind_fields" not in names:
